@@ -661,7 +661,69 @@ def contradicted_edges(fn, terms, assume):
     return removed
 
 
+def _flag_edges(fn, terms, atom, removed, edge_atoms_fn):
+    """For an atom (phi pred const) on a loop-free boolean-flag phi: the incoming edges on which it can hold, as
+    [(pred block, atoms that hold when control came that way, including (value pred const) for a non-constant incoming value)].
+    None if the atom is not of that shape."""
+    if atom[0] != 'cmp' or atom[1] not in ('eq', 'ne') or atom[2][0] != 'phi' or atom[3][0] != 'const':
+        return None
+    phi = fn.insts.get(atom[2][1])
+    if phi is None or phi.op != 'phi' or phi.block.loop is not None:
+        return None
+    c = atom[3][1]
+    out = []
+    reach = fn.reachable(fn.entry, removed=set(removed))
+    for bid, v in phi.incoming:
+        if (bid, phi.block.id) in removed or bid not in reach:
+            continue
+        pb = fn.bmap[bid]
+        ea = list(edge_atoms_fn(pb))
+        for s2, lab in out_edges(pb):
+            if s2 is phi.block and lab is not None and lab[0] == 'br':
+                ea.extend(cond_atoms(terms, lab[1], lab[2]))
+        kv = const_of(v)
+        if kv is not None:
+            if (kv == c) == (atom[1] == 'eq'):
+                out.append((pb, ea))
+            continue
+        tv = terms.term(v)
+        if has_atom(ea, NEG[atom[1]], tv, ('const', c)):
+            continue            # this edge is taken only when the value does NOT satisfy the atom
+        out.append((pb, ea + [('cmp', atom[1], tv, ('const', c))]))
+    return out
+
+
+def flag_provenance(fn, terms, atoms, removed, edge_atoms_fn, depth=0):
+    """Facts implied by atoms about boolean flags kept in locals (`bad = false; if (..) bad = true; ... if (bad) error`): when
+    exactly one incoming edge of the flag's phi is compatible with the atom, the conditions of that edge hold as well."""
+    extra = []
+    work = list(atoms)
+    seen = set()
+    n = 0
+    while work and n < 40:
+        a = norm_atom(work.pop())
+        n += 1
+        if a in seen:
+            continue
+        seen.add(a)
+        es = _flag_edges(fn, terms, a, removed, edge_atoms_fn)
+        if es is not None and len(es) == 1:
+            for x in es[0][1]:
+                x = norm_atom(x)
+                if x not in seen:
+                    extra.append(x)
+                    work.append(x)
+    return extra
+
+
 def atoms_at_restricted(fn, terms, block, removed):
+    out = _atoms_at_restricted0(fn, terms, block, removed)
+    if out is None:
+        return None
+    return out + flag_provenance(fn, terms, out, removed, lambda b: _atoms_at_restricted0(fn, terms, b, removed) or [])
+
+
+def _atoms_at_restricted0(fn, terms, block, removed):
     """Like atoms_at, on the CFG with `removed` edges deleted (paths that contradict an assumption)."""
     rem = set(removed)
     base = fn.reachable(fn.entry, removed=rem)
